@@ -24,9 +24,24 @@ def build_harness():
         raise T.ToolError("harness build failed (is /repo's public API still what the harness uses?):\n" + p.stdout[-4000:])
 
 
+class ExecHang(Exception):
+    """The implementation did not return from an execution (reported by the harness's monitor, exit status 3)."""
+    def __init__(self, case):
+        Exception.__init__(self, "execution did not terminate")
+        self.case = case
+
+
 def celconf(args, timeout=3600, check=True):
     p = subprocess.run(["timeout", str(timeout), BIN] + [str(a) for a in args], cwd=ROOT, stdout=subprocess.PIPE,
                        stderr=subprocess.PIPE, text=True)
+    if p.returncode == 3 and "EXEC-TIMEOUT" in p.stderr:
+        line = [l for l in p.stderr.splitlines() if l.startswith("EXEC-TIMEOUT")][-1]
+        try:
+            case = json.loads(line[len("EXEC-TIMEOUT "):])
+        except Exception:
+            case = {"src": line}
+        case["driver"] = [str(a) for a in args]
+        raise ExecHang(case)
     if p.returncode == 124:
         raise T.ToolError("celconf timed out: %s" % args)
     if check and p.returncode != 0:
@@ -229,7 +244,10 @@ def main(argv):
         if replay:
             return props.replay(prop, replay)
         run = Run(prop, tier, seed)
-        props.CHECKS[prop](run)
+        try:
+            props.CHECKS[prop](run)
+        except ExecHang as h:
+            run.violation(h.case, "Program::execute did not return within the harness's limit: non-termination (a value or an error is required)")
         return run.finish()
     except T.ToolError as e:
         sys.stderr.write("TOOL ERROR: %s\n" % e)
